@@ -151,6 +151,50 @@ def body_repeat(case, ctx):
             return
 
 
+def cases_high(tier):
+    orders = [64, 100, 150, 199, 200, 201, 256, 300] + ([400] if tier == 'thorough' else [])
+    return [dict(cell='RefLine', order=n) for n in orders] + [dict(cell='RefQuad', order=n) for n in (64, 200)]
+
+
+def body_high(case, ctx):
+    """orders far above the monomial enumeration (x^200 cannot tell a rule of degree 199 from one of degree 200: the error is
+    1e-120): shifted Legendre polynomials can.  For order n, with j + k = n:  int_0^1 P_j(2x-1) P_k(2x-1) dx = delta_jk / (2j+1),
+    int P_n = 0."""
+    import numpy as np
+    from numpy.polynomial import legendre as L
+    import skfem.refdom as rd
+    from skfem.quadrature import get_quadrature
+    name, n = case['cell'], case['order']
+    X, W = get_quadrature(getattr(rd, name), n)
+    X, W = np.asarray(X, dtype=float), np.asarray(W, dtype=float)
+    ctx.nt()
+    ctx.cls(f'{name}:high-order')
+    sig = dict(cell=name, _order=n)
+    ctx.close('weight_sum', W.sum(), 1.0, 1e-12, **sig)
+    if X.min() < -1e-14 or X.max() > 1 + 1e-14:
+        ctx.fail('nodes_inside', f'order {n}', cell=name)
+
+    def P(k, x):
+        return L.legval(2.0 * x - 1.0, [0.0] * k + [1.0])
+    x = X[0]
+    y = X[1] if X.shape[0] > 1 else None
+    for j in sorted({n // 2, n // 2 - 1, 1, n - 1}):
+        k = n - j
+        if j < 0 or k < 0:
+            continue
+        vals = P(j, x) * P(k, x)
+        if y is not None:
+            vals = vals * P(j, y) * P(k, y)       # degree n in each direction
+        want = (1.0 / (2 * j + 1) if j == k else 0.0) ** (1 if y is None else 2)
+        got = float(np.sum(W * vals))
+        if abs(got - want) > 1e-11:
+            ctx.fail('exactness', f'order {n}: int P_{j} P_{k} = {got!r}, exact {want!r}', cell=name, high=True)
+            return
+    got = float(np.sum(W * (P(n, x) if y is None else P(n, x) * P(n, y))))
+    if abs(got) > 1e-11:
+        ctx.fail('exactness', f'order {n}: int P_{n} = {got!r}, exact 0', cell=name, high=True)
+
+
 PROP = Prop(
     'C08', 'quadrature rules deliver their advertised degree',
     rule=('complete enumeration of (reference cell, order n from -1 up to the probed maximum, monomial) triples: '
@@ -160,6 +204,7 @@ PROP = Prop(
     assumptions=['exact rational reference integrals (Fractions) compared at 5e-13 relative',
                  'any exception for an order counts as "raises" (the property does not fix the type)',
                  'Gauss-Legendre based cells accept every order; they are probed up to the stated maximum only'],
-    subs=[Sub('rules', body, cases=cases, max_shards=16), Sub('repeat_calls', body_repeat, cases=cases_repeat, max_shards=8)],
+    subs=[Sub('rules', body, cases=cases, max_shards=16), Sub('repeat_calls', body_repeat, cases=cases_repeat, max_shards=8),
+          Sub('high_orders', body_high, cases=cases_high, max_shards=8)],
     design_ref='DESIGN.md section 6, C08')
 PROP.rule += ('. Added in round 2 (sub-check repeat_calls): every (cell, order) and its neighbours (all cells, orders n-1, n, n+1) are requested, the caller rescales the arrays of one result in place, and everything is requested again: bit-identical results required.')
